@@ -299,6 +299,8 @@ type Contract struct {
 	Safety    []string // classes of automatic obligations claimed: nil idx slice div wrap conv assert map
 	SafetyProps []string
 	Opts      map[string]string
+	Frames     []string // partial frame: within the heap variables these locations live in, nothing else changes
+	FramesProps []string
 	Lemmas     []*Clause // proved (then assumed) at every return before the postconditions; may name locals
 	ExtraProps []string // properties this function carries obligations for without a clause of its own
 	AllLoopInv []*Clause  // invariants added to every loop (schemas)
@@ -593,6 +595,14 @@ func ParseSpecLines(sf *SpecFile, file string, lines []string, trusted bool) err
 				cur.At[anchor] = append(cur.At[anchor], &Clause{Kind: sub, Props: ltags, Src: body, Expr: e, Line: l.at})
 			case "trusted":
 				cur.Trusted = true
+			case "frames":
+				for _, m := range splitTop(rest, ',') {
+					m = strings.TrimSpace(m)
+					if m != "" {
+						cur.Frames = append(cur.Frames, m)
+					}
+				}
+				cur.FramesProps = append(cur.FramesProps, tags...)
 			case "pure":
 				cur.Pure = true
 				cur.HasMod = true
